@@ -261,6 +261,41 @@ example : closeCount [[.req 0 .ok false], [.close]] ≤ 1 ∧
     results (run ⟨1, true, true⟩ [[.req 0 .ok false], [.close]] [1, 1, 1, 1, 1, 0]) =
       [[(.req 0 .ok false, .closedPool)], [(.close, .ok)]] := by decide
 
+/-- **Close race, few threads.**  At most `maxsize` threads, each holding at most one lease at a
+time (streaming responses released before the next request / the end; `close` ops allowed
+anywhere), any `block`: under every schedule no `_put_conn` ever finds the queue full, so the
+internal error of finding 2 cannot arise — every request / `release_conn` ends `ok`,
+`closedPool`, `emptyPool` or `failed`, and only a second concurrent `close()` can fail. -/
+theorem C02_close_race_few_threads (cfg : Cfg) (progs : List (List Op)) (σ : List Nat)
+    (h : FewThreads cfg progs) :
+    (∀ th ∈ (run cfg progs σ).threads, ∀ i k, th.pc ≠ .fullClose i k ∧ th.pc ≠ .warnLoad i k) ∧
+    ∀ rs ∈ results (run cfg progs σ), ∀ p ∈ rs,
+      p.2 = .ok ∨ p.2 = .closedPool ∨ p.2 = .emptyPool ∨ p.2 = .failed ∨
+      (p.2 = .internalErr ∧ p.1 = .close ∧ 2 ≤ closeCount progs) := by
+  have hq := invQ_run h σ
+  constructor
+  · intro th hth
+    obtain ⟨t, g⟩ := List.getElem?_of_mem hth
+    exact hq.nofull t th g
+  · intro rs hrs p hp
+    rcases C02_close_race_partial cfg progs σ rs hrs p hp with h1 | h1 | h1 | h1 | h1 | h1
+    · exact Or.inl h1
+    · exact Or.inr (Or.inl h1)
+    · exact Or.inr (Or.inr (Or.inl h1))
+    · exact Or.inr (Or.inr (Or.inr (Or.inl h1)))
+    · simp only [results, List.mem_map] at hrs
+      obtain ⟨th, hth, rfl⟩ := hrs
+      obtain ⟨t, g⟩ := List.getElem?_of_mem hth
+      exact absurd (hq.noerr t th g p hp h1.1) h1.2.1
+    · exact Or.inr (Or.inr (Or.inr (Or.inr h1)))
+
+/-- non-vacuity: two threads on a `block=False` pool of size 2, one of them closing the pool -/
+example : FewThreads ⟨2, false, false⟩ [[.req 0 .ok true, .release, .close], [.req 1 .ok false]] := by
+  refine ⟨by decide, ?_⟩
+  intro p hp
+  simp at hp
+  rcases hp with rfl | rfl <;> decide
+
 /-
 Full statement (false: `C02_close_strands_waiter_witness`): with a concurrent `close()` no request
 ever hangs.  Proved under the precise hypothesis that excludes the finding:
